@@ -88,10 +88,10 @@ type c09Book struct {
 }
 
 type c09Run struct {
-	p     *Plan
-	res   *Result
-	ctx   context.Context
-	n, rm *SimNode
+	p      *Plan
+	res    *Result
+	ctx    context.Context
+	n, rm  *SimNode
 	colIDs map[string]string
 	// model (live documents only)
 	users     map[string]int // id -> age
